@@ -291,9 +291,17 @@ def eval_protect_task(f, path, hashes):
                 log.append(("send", name[len("send(hash-tx,"):-1]))
                 return E.Ok(E.UNIT)
         return None
-    handler = E.Some(E.struct(f, "engine::ProtectCallbackHandler", **{"0": E.Tok("requests")}))
+    handler = E.struct(f, "engine::ProtectCallbackHandler", **{"0": E.Tok("requests")})
+
+    def caps(nm, ty):
+        # captured variables / parameters by their type, not their name
+        if "ProtectCallbackHandler" in ty:
+            return E.Some(handler) if "Option<" in ty else handler
+        if "SyncHandle" in ty:
+            return E.Tok("sync")
+        return None
     try:
-        out, it = E.run_coroutine(f, path, {"protect_cb": handler, "sync2": E.Tok("sync")}, {}, oracle)
+        out, it = E.run_coroutine(f, path, caps, {}, oracle)
         return E.describe(out, f), log
     except E.Unsupported as e:
         return "UNSUPPORTED-FORM: %s" % e, log
@@ -334,8 +342,14 @@ def eval_protect_cb(f, path, start_ok, reply_ok, stream):
                     return E.NONE
                 return E.Some(E.Ok(E.Tok("hash%d" % i))) if stream[i] == "ok" else E.Some(E.Err(E.Tok("error%d" % i)))
         return None
+    def caps(nm, ty):
+        if "mpsc::Sender" in ty:
+            return E.Tok("start_tx")
+        if "HashSet" in ty:
+            return E.Tok("live")
+        return None
     try:
-        out, it = E.run_coroutine(f, path, {"start_tx": E.Tok("start_tx"), "live": E.Tok("live")}, {}, oracle)
+        out, it = E.run_coroutine(f, path, caps, {}, oracle)
         return E.describe(out, f), live
     except E.Unsupported as e:
         return "UNSUPPORTED-FORM: %s" % e, live
@@ -343,11 +357,15 @@ def eval_protect_cb(f, path, start_ok, reply_ok, stream):
 
 def gc_protect(ctx):
     f = ctx.facts
-    tasks = [b for p, b in f.bodies.items() if p.startswith("engine::Engine::spawn::") and b.rec.get("closure_kind") == "coroutine" and any(t["f"].get("name") == "content_hashes" for _, t in b.calls())]
-    cbs = [b for p, b in f.bodies.items() if p.startswith("engine::ProtectCallbackSender::into_cb::") and b.rec.get("closure_kind") == "coroutine"]
+    # found by what they do, wherever a clean-up moved them: the future that asks the store actor for the content hashes, and
+    # the future that produces the collector's verdict
+    def builds_outcome(b):
+        return any(s2["k"] == "assign" and s2["r"][0] == "agg" and s2["r"][1][0] == "adt" and "ProtectOutcome" in str(s2["r"][1][1]) for _, _, s2 in b.statements())
+    cor = [b for p, b in f.bodies.items() if p.startswith("engine::") and not p.startswith("engine::live::") and b.rec.get("closure_kind") == "coroutine"]
+    tasks = [b for b in cor if any(t["f"].get("name") == "content_hashes" and callee_matches(t, r"SyncHandle::content_hashes$") for _, t in b.calls())]
+    cbs = [b for b in cor if builds_outcome(b)]
     if len(tasks) != 1 or len(cbs) != 1:
-        from .engine import AnchorMissing
-        raise AnchorMissing("expected one gc-protect task calling content_hashes in Engine::spawn and one async block in ProtectCallbackSender::into_cb; found %d / %d" % (len(tasks), len(cbs)))
+        raise mir.AnchorMissing("expected one future in engine.rs that calls SyncHandle::content_hashes (the gc-protect task) and one that builds the ProtectOutcome (the protect callback); found %s / %s" % ([b.path for b in tasks], [b.path for b in cbs]))
     task, cb = tasks[0], cbs[0]
     ctx.touch(task, cb)
     # the task: a failure to list the hashes is forwarded to the collector (or the collector would see an empty, cleanly ended
